@@ -295,4 +295,4 @@ def judge(ctx, spec, model, op, res, rel, gen, nonce, entries, where):
 
 
 def campaigns(ctx):
-    return [Campaign('history', histories(), check_history, 45, 400)]
+    return [Campaign('history', histories(), check_history, 70, 400)]
